@@ -9,28 +9,28 @@ SPEC = {
         "satisfiable-by-model but not complete is counted, not asserted (the statement does not promise completeness)",
     ],
     "stages": [
-        gen("vh_c46", "c46_miniscript", 250000, 4000000, min_cases_quick=60000,
+        gen("vh_c46", "c46_miniscript", 120000, 2000000, min_cases_quick=30000,
             floors={"complete": 0.08, "model:unsatisfiable": 0.15, "complete:p2wsh": 0.03, "complete:tapscript": 0.015, "complete:taproot-keypath": 0.01,
                     "ops-limit-trap": 0.005, "has-timelock": 0.2, "complete-with-timelock-in-expr": 0.02, "nodes>=8": 0.15,
                     "frag:and_v": 0.1, "frag:and_b": 0.03, "frag:or_b": 0.03, "frag:or_d": 0.03, "frag:or_i": 0.05, "frag:andor": 0.03, "frag:thresh": 0.05,
                     "frag:older": 0.08, "frag:after": 0.08, "frag:sha256": 0.03, "frag:hash160": 0.03, "frag:pkh": 0.08, "frag:multi": 0.03, "frag:multi_a": 0.03},
             rule="type-directed miniscript expressions in P2WSH / P2SH-P2WSH / tapscript with random key, preimage and timelock availability; "
                  "non-trivial = >= 1 combinator and verdict decided (complete or model-unsatisfiable)"),
-        gen("vh_c46", "c46_descriptor_sign", 120000, 2000000, min_cases_quick=30000,
+        gen("vh_c46", "c46_descriptor_sign", 50000, 800000, min_cases_quick=12000,
             floors={"some-input-complete": 0.3, "some-input-unsatisfiable": 0.2, "complete:wsh(multi)": 0.01, "complete:sh(multi)": 0.01, "complete:tr(key,multi_a)": 0.01,
                     "complete:tr(key,{pk,pk})": 0.01, "complete:wsh(miniscript)": 0.01, "unsat:wsh(multi)": 0.005, "unsat:raw-sh-oversize-multisig": 0.03,
                     "complete:pkh": 0.01, "complete:tr(key)": 0.01},
             rule="descriptor outputs signed with SignTransaction under key subsets; non-trivial = complete and unsatisfiable inputs in one case, or a "
                  "multi-key/script-path input complete"),
-        gen("vh_c46", "up_script_sign", 20000, 400000, rule="upstream fuzz target script_sign (supplementary)"),
-        gen("vh_c46", "up_miniscript_smart", 20000, 400000, rule="upstream fuzz target miniscript_smart: satisfactions vs its own model (supplementary)"),
+        gen("vh_c46", "up_script_sign", 8000, 200000, rule="upstream fuzz target script_sign (supplementary)"),
+        gen("vh_c46", "up_miniscript_smart", 6000, 200000, workers_quick=4, rule="upstream fuzz target miniscript_smart: satisfactions vs its own model (supplementary)"),
     ],
 }
 
 META = {
-    "level_text": "Generated search: ~250k (quick) / 4M (thorough) miniscript expressions (own AST, all fragments and wrappers, P2WSH / P2SH-P2WSH / tapscript leaf "
+    "level_text": "Generated search: ~120k (quick) / 2M (thorough) miniscript expressions (own AST, all fragments and wrappers, P2WSH / P2SH-P2WSH / tapscript leaf "
                   "with optional key path and sibling leaf) signed once by ProduceSignature with random subsets of keys, preimages and satisfied timelocks, plus "
-                  "~120k / 2M descriptor-produced outputs (15 kinds incl. a signable-but-unverifiable oversize P2SH) signed by SignTransaction. Asserted: complete "
+                  "~50k / 800k descriptor-produced outputs (15 kinds incl. a signable-but-unverifiable oversize P2SH) signed by SignTransaction. Asserted: complete "
                   "=> the final transaction's input verifies under the standard flags with a fresh checker; unsatisfiable according to an independent boolean "
                   "evaluator (own BIP65/BIP112 predicates) => never complete. Exploration only.",
     "technique": "property-based testing: implication between the signer's verdict and an independent verification; independent reference evaluator "
